@@ -1,1 +1,2 @@
-
+pub mod facts;
+pub mod opcodes;
